@@ -350,8 +350,17 @@ def run(ctx, rep):
     tf, to = outcomes(F, "elf_stream::ElfStream::open_stream")
     if so is not None and to is not None:
         n += 1
-        ea = sorted({repr(_canon_open(x[3][0])) for x in so if x[0] == "agg"})
-        eb = sorted({repr(_canon_open(x[3][0])) for x in to if x[0] == "agg"})
+        def _expand(hdr):
+            """the header value may be the result of a private helper that reads and parses it: its success values"""
+            if hdr[0] == "payload" and hdr[2] == "Ok" and hdr[1][0] == "call":
+                hf = F.fn(hdr[1][1])
+                if hf is not None and not program(F).known_name(hf) and hf["kind"] != "Closure":
+                    _, ho = outcomes(F, hdr[1][1])
+                    if ho:
+                        return [y for y in ho]
+            return [hdr]
+        ea = sorted({repr(_canon_open(y)) for x in so if x[0] == "agg" for y in _expand(x[3][0])})
+        eb = sorted({repr(_canon_open(y)) for x in to if x[0] == "agg" for y in _expand(x[3][0])})
         rep.require(ea == eb and len(ea) == 2, "sibling", "open", wh(tf["span"]), "ehdr = parse_tail(parse_ident(FILE(0,16)), FILE(16, 16+36|48))",
                     "the file header is derived differently: slice %s / stream %s" % (ea, eb))
         diffs.append("open: header tables are located by find_shdrs/find_phdrs vs parse_section_headers/parse_program_headers (both checked against the same rule by C05); "
